@@ -219,6 +219,36 @@ class parse_criteria_wildcard:
         return same(out.value(a), wildcard_match(a, criteria))
 
 
+@inductive
+def selected_max(k, items, cells):
+    """ the largest of the first k items whose criteria cell satisfies '>0'; None while nothing is selected """
+    if k <= 0 or k > len(items) or k > len(cells):
+        return None
+    m = selected_max(k - 1, items, cells)
+    if cells[k - 1] > 0:
+        return items[k - 1] if m is None else max(m, items[k - 1])
+    return m
+
+
+@contract('hotxlfp.formulas.statistical:MAXIFS', props=['C11'])
+class MAXIFS_inductive:
+    # the maximum of exactly the selected items (recursive definition over the prefix), 0 when nothing is selected; any length
+    args = dict(sum_args=SEQ(INT, minlen=1))
+    cases = [dict(criteria=TUPLE(SEQ(INT, minlen=1), CONST('>0')))]
+    inline_callees = ['parse_criteria']
+
+    def pre(sum_args, criteria):
+        return len(criteria[0]) == len(sum_args)
+
+    def post(sum_args, criteria, out):
+        m = selected_max(len(sum_args), sum_args, criteria[0])
+        if m is None:
+            return out.ret and same(out.value, 0)
+        return out.ret and same(out.value, m)
+
+    loops = [dict(types=dict(b=INT | NONE_T), inv=lambda k, sum_args, criteria, b: same(b, selected_max(k, sum_args, criteria[0])))]
+
+
 @contract('hotxlfp.formulas.statistical:MAXIFS', props=['C11'])
 class MAXIFS:
     # one criteria range / criterion pair ('>0' on the criteria cells); the maximum of exactly the selected items, 0 when none is
@@ -229,6 +259,7 @@ class MAXIFS:
     bounded_args = dict(sum_args=SEQ(NUMBER, minlen=1, maxlen=1))
     inline_callees = ['parse_criteria']
     no_native = True
+    tiers = ('thorough',)           # the quantified characterisation (exists an equal selected item, all selected items <=) costs ~80 s
     timeout_s = 300
     solver_timeout_ms = 45000      # the two quantified inv.keep obligations take 5-15 s each on an idle machine
 
@@ -253,3 +284,87 @@ class MAXIFS:
 
 def same_num(x, y):
     return x == y
+
+
+@inductive
+def selected_sum(k, items, cells):
+    """ the sum of the first k items whose criteria cell satisfies '>0' (the textbook definition, by recursion on k) """
+    if k <= 0 or k > len(items) or k > len(cells):
+        return 0
+    if cells[k - 1] > 0:
+        return selected_sum(k - 1, items, cells) + items[k - 1]
+    return selected_sum(k - 1, items, cells)
+
+
+@inductive
+def selected_count(k, cells):
+    if k <= 0 or k > len(cells):
+        return 0
+    if cells[k - 1] > 0:
+        return selected_count(k - 1, cells) + 1
+    return selected_count(k - 1, cells)
+
+
+@contract('hotxlfp.formulas.mathtrig:SUMIFS', props=['C11'])
+class SUMIFS:
+    # one criteria range / criterion pair ('>0' on the criteria cells): the sum of exactly the selected items, any length, 0 when
+    # nothing is selected (selected_sum(0..) = 0); ranges of different lengths are #VALUE!
+    args = dict(sum_args=SEQ(NUMBER, minlen=1))
+    cases = [dict(criteria=TUPLE(SEQ(NUMBER, minlen=1), CONST('>0')))]
+    inline_callees = ['parse_criteria']
+
+    def post(sum_args, criteria, out):
+        if len(criteria[0]) != len(sum_args):
+            return out.ret and same(out.value, VALUE)
+        return out.ret and same(out.value, selected_sum(len(sum_args), sum_args, criteria[0]))
+
+    loops = [None,
+             dict(types=dict(b=NUMBER), inv=lambda k, sum_args, criteria, b: same(b, selected_sum(k, sum_args, criteria[0])))]
+
+
+@inductive
+def selected_sum2(k, items, cells1, cells2):
+    """ two criteria: an item counts when the cell of EVERY criteria range satisfies its criterion ('>0' and '<=2' here) """
+    if k <= 0 or k > len(items) or k > len(cells1) or k > len(cells2):
+        return 0
+    if cells1[k - 1] > 0 and cells2[k - 1] > 0:
+        return selected_sum2(k - 1, items, cells1, cells2) + items[k - 1]
+    return selected_sum2(k - 1, items, cells1, cells2)
+
+
+@contract('hotxlfp.formulas.mathtrig:SUMIFS', props=['C11'])
+class SUMIFS_two_criteria:
+    # two criteria ranges carrying the SAME criterion text: every criterion has to hold, each on its own range
+    args = dict(sum_args=SEQ(INT, minlen=1))
+    cases = [dict(criteria=TUPLE(SEQ(INT, minlen=1), CONST('>0'), SEQ(INT, minlen=1), CONST('>0')))]
+    inline_callees = ['parse_criteria']
+
+    def post(sum_args, criteria, out):
+        if len(criteria[0]) != len(sum_args) or len(criteria[2]) != len(sum_args):
+            return out.ret and same(out.value, VALUE)
+        return out.ret and same(out.value, selected_sum2(len(sum_args), sum_args, criteria[0], criteria[2]))
+
+    loops = [None,
+             dict(types=dict(b=INT), inv=lambda k, sum_args, criteria, b: same(b, selected_sum2(k, sum_args, criteria[0], criteria[2])))]
+
+
+@contract('hotxlfp.formulas.statistical:AVERAGEIFS', props=['C11'])
+class AVERAGEIFS:
+    # the mean of exactly the selected items; an error (returned or raised) when nothing is selected
+    args = dict(average_range=SEQ(INT, minlen=1))
+    cases = [dict(criteria=TUPLE(SEQ(INT, minlen=1), CONST('>0')))]
+    inline_callees = ['parse_criteria']
+
+    def pre(average_range, criteria):
+        return len(criteria[0]) == len(average_range)
+
+    def post(average_range, criteria, out):
+        n = len(average_range)
+        cnt = selected_count(n, criteria[0])
+        if cnt == 0:
+            return (not out.ret) or is_err(out.value)
+        return out.ret and same(out.value, selected_sum(n, average_range, criteria[0]) / cnt)
+
+    loops = [dict(types=dict(sum_value=INT, count_value=INT),
+                  inv=lambda k, average_range, criteria, sum_value, count_value:
+                  same(sum_value, selected_sum(k, average_range, criteria[0])) and same(count_value, selected_count(k, criteria[0])))]
